@@ -329,6 +329,24 @@ move_thread_to_final(const char *src, const char *dst)
 	return 0;
 }
 
+static int
+move_stream_file(const char *thdir, const char *thdir_final, const char *name)
+{
+	char thread[PATH_MAX];
+	if (snprintf(thread, PATH_MAX, "%s/%s", thdir, name) >= PATH_MAX) {
+		err("snprintf: path too large: %s/%s", thdir, name);
+		return -1;
+	}
+
+	char thread_final[PATH_MAX];
+	if (snprintf(thread_final, PATH_MAX, "%s/%s", thdir_final, name) >= PATH_MAX) {
+		err("snprintf: path too large: %s/%s", thdir_final, name);
+		return -1;
+	}
+
+	return move_thread_to_final(thread, thread_final);
+}
+
 static void
 move_thdir_to_final(const char *thdir, const char *thdir_final)
 {
@@ -342,36 +360,31 @@ move_thdir_to_final(const char *thdir, const char *thdir_final)
 
 	struct dirent *dirent;
 	const char *prefix = "stream.";
+	const char *metadata = "stream.json";
+	int has_metadata = 0;
 	while ((dirent = readdir(dir)) != NULL) {
 		/* It should only contain stream.* directories, skip others */
 		if (strncmp(dirent->d_name, prefix, strlen(prefix)) != 0)
 			continue;
 
-		char thread[PATH_MAX];
-		if (snprintf(thread, PATH_MAX, "%s/%s", thdir,
-				    dirent->d_name)
-				>= PATH_MAX) {
-			err("snprintf: path too large: %s/%s", thdir,
-					dirent->d_name);
-			ret = 1;
+		/* The metadata marks the stream as finished, so it must be
+		 * the last file to reach the final directory */
+		if (strcmp(dirent->d_name, metadata) == 0) {
+			has_metadata = 1;
 			continue;
 		}
 
-		char thread_final[PATH_MAX];
-		if (snprintf(thread_final, PATH_MAX, "%s/%s", thdir_final,
-				    dirent->d_name)
-				>= PATH_MAX) {
-			err("snprintf: path too large: %s/%s", thdir_final,
-					dirent->d_name);
-			ret = 1;
-			continue;
-		}
-
-		if (move_thread_to_final(thread, thread_final) != 0)
+		if (move_stream_file(thdir, thdir_final, dirent->d_name) != 0)
 			ret = 1;
 	}
 
 	closedir(dir);
+
+	/* Only when the rest of the stream is in place */
+	if (ret == 0 && has_metadata) {
+		if (move_stream_file(thdir, thdir_final, metadata) != 0)
+			ret = 1;
+	}
 
 	/* Warn the user, but we cannot do much at this point */
 	if (ret)
